@@ -574,6 +574,14 @@ func (f *Frame) stdModel(in ssa.Instruction, callee *ssa.Function, cc *ssa.CallC
 		return []Term{tid, val}, true
 	case "fmt.Sprintf", "fmt.Sprint", "fmt.Sprintln":
 		return []Term{c.fresh("sprintf", SStr)}, true
+	case "(time.Time).Format":
+		// a deterministic function of the time value (instant and location) and the layout
+		c.note("assumed", "assumed contract: time.Time.Format is a function of the time value and the layout (result otherwise unconstrained)")
+		if !c.declared["ext_timeformat"] {
+			c.declared["ext_timeformat"] = true
+			c.emit("(declare-fun ext_timeformat (Int Str) Str)")
+		}
+		return []Term{app(SStr, "ext_timeformat", args[0][0], args[1][0])}, true
 	case "(time.Time).IsZero":
 		c.note("assumed", "assumed contract: time.Time is an opaque instant; IsZero <=> zero value")
 		return []Term{Eq(args[0][0], IntLit(0))}, true
